@@ -391,11 +391,31 @@ func (e *schedEngine) chainSatisfied(s *StageSpec) (bool, string) {
 	return false, why
 }
 
+// inSharedGraph: the stage lies (at some depth) in a pipeline that is nested by more than one stage.
+func (e *schedEngine) inSharedGraph(name string, depth int) bool {
+	ps := e.parents[name]
+	if len(ps) >= 2 {
+		return true
+	}
+	if depth > 4 {
+		return false
+	}
+	for _, p := range ps {
+		if e.inSharedGraph(p.Name, depth+1) {
+			return true
+		}
+	}
+	return false
+}
+
 func (e *schedEngine) onEvent(ev *Event) {
 	c := e.c
 	switch ev.Kind {
 	case "run-enter":
-		if flipCondition(ev.Subject) {
+		// (not in a pipeline nested by several stages: there two loops evaluate the stage's
+		// condition, each once, and a condition that changes between the two is a world the
+		// properties do not speak about)
+		if !e.inSharedGraph(ev.Subject, 0) && flipCondition(ev.Subject) {
 			c.Count("conditions_turned_false_while_the_stage_runs")
 		}
 		x := e.byName[ev.Subject]
